@@ -340,7 +340,12 @@ def _ob_raw(r: int, first: int) -> bool:
         end = data.find(EB + CR)
         seen = data if end < 0 else data[:end + 2]
         if ctors:
-            return _wellformed(seen) and len(conn.sent) > 0
+            # a handler runs only for a well-formed frame whose bytes decode; it is given exactly the framed text
+            try:
+                text = seen[1:-2].decode('utf-8')
+            except UnicodeDecodeError:
+                return False
+            return _wellformed(seen) and len(conn.sent) > 0 and ctors[0][2] == text
         return conn.sent == b''
 
 
